@@ -186,6 +186,7 @@ Definition matching (nid : N) (q : iquery) (d : db) : list row :=
 Definition per_page (size : Z) : Z := if Z.eqb size 0 then Z.of_nat defaultPageSize else size.
 
 Definition GetRelationTuples (nid : N) (q : iquery) (size : Z) (tok : token) (d : db) : res (list row * token) :=
+  if (size <? 0)%Z then RErr E_BadRequest else     (* after fix D19 (was: no LIMIT, then an index panic on a one-row page) *)
   match tok with
   | TokMalformed => RErr E_BadToken
   | _ =>
